@@ -199,7 +199,15 @@ func runC16(c *vh.Ctx) {
 		"unused / forward-only parameters, the one direct use at either end or in the middle, call sites along / against / across the " +
 		"flow, as BEGIN blocks, one block, or bodies of uncalled functions), locals-after-leave programs (2-4 functions with mixed local " +
 		"arrays and scalars reporting their locals on entry; left by return, falling off the end, exit, next, nextfile, division by zero " +
-		"or call-depth overflow at depth 0-8, called from BEGIN, actions, patterns and END) checked against a simulation, and every program once more with ParserConfig.Funcs " +
+		"or call-depth overflow at depth 0-8, called from BEGIN, actions, patterns and END) checked against a simulation, stack-growth programs " +
+		"(chains of 1-3 functions recursing to depths that sweep the re-allocation steps of the VM's value stack — initial capacity and maximum " +
+		"call depth read from interp/*.go — and random depths up to and beyond the call-depth limit; per function 0-2 scalar and 0-2 array " +
+		"parameters in mixed order, 0-6 scalar locals, 0-3 local arrays; locals assigned from expressions with an operand stack 0-12 deep, " +
+		"getline into a local, for-in sums; the nested call plain / inside nested arithmetic or concatenation with up to 12 pending operands / " +
+		"as argument of other calls / in printf and sprintf lists / in a subscript / in a condition / inside for-in / with assignments among " +
+		"its arguments / with fewer arguments; leaving at the bottom by return, bare return, exit or next; three inputs per program, each run on " +
+		"a fresh interpreter) checked against an evaluator of the description, frames programs (scalars only; unrolled into push/pop/write/read/" +
+		"enter/leave events for the Lean value-stack model), and every program once more with ParserConfig.Funcs " +
 		"entries named like its AWK functions; each structured program under every permutation of its top-level items (<=6 items, else " +
 		"sampled) and three renamings; non-trivial = the program has a call that passes a variable to an AWK function")
 
@@ -431,6 +439,8 @@ func runC16(c *vh.Ctx) {
 	callShapeOracle(c)
 	deepRecOracle(c)
 	leaveOracle(c)
+	stackGrowOracle(c)
+	framesOracle(c)
 
 	// correspondence with the Lean model
 	if c.HasLean() {
